@@ -46,6 +46,7 @@ KN = [(k, n) for n in range(2, 6) for k in range(1, n + 1)]
 GATES = {
     "object-histories": ["reuse:musig-object-across-merkle-roots", "leaf-spend:multi-input-init-all-then-finalize-all"],
     "mixed-sighash-flags": ["leaf-spend:mixed-sighash-flags"],
+    "recreated-leaf-queries": ["leaf-spend:control-block-asked-with-recreated-leaf", "leaf-spend:control-block-asked-with-recreated-leaf:k=n"],
     "monitors-ran": [
         "MuSigTapScript.__init__", "MuSigTapScript.nonce_sums", "MuSigTapScript.compute_r", "MuSigTapScript.compute_k",
         "MuSigTapScript.sign", "MuSigTapScript.get_signature", "MuSigTapScript.generate_nonces",
@@ -267,6 +268,12 @@ def post_generate_nonces(args, kwargs, pre, out):
 
 def _key_set(script):
     return frozenset(c for c in script.commands if isinstance(c, (bytes, bytearray)) and len(c) == 32)
+
+
+def _recreated(leaf):
+    from buidl.taproot import TapLeaf
+
+    return TapLeaf(leaf.tap_script, leaf.tapleaf_version)
 
 
 def _fresh_leaves(node):
@@ -595,7 +602,9 @@ def run_tree(ctx, spec):
         leaf = mine[0]
         tx = _spend_tx(spk)
         case = {"op": "tree", "tree": spec, "subset": list(subset), "leaf": "multisig"}
-        co = outcome(tree.control_block, internal, leaf)
+        # the spender re-creates the leaf of its subset (an equal, distinct object) and asks the tree with that
+        co = outcome(tree.control_block, internal, _recreated(leaf))
+        ctx.count("leaf-spend:control-block-asked-with-recreated-leaf" + (":k=n" if k == n else ""))
         if co[0] != "ok" or co[1] is None:
             ctx.violation("leaf-spend-fails:no-control-block", "no control block for a subset's leaf", case)
             continue
@@ -656,7 +665,7 @@ def run_tree(ctx, spec):
                     continue
                 leaf = mine[0]
                 tx = _spend_tx(mspk)
-                co = outcome(mtree.control_block, internal, leaf)
+                co = outcome(mtree.control_block, internal, _recreated(leaf))
                 if co[0] != "ok" or co[1] is None:
                     ctx.violation("leaf-spend-fails:no-control-block", "no control block for a subset's MuSig leaf", case)
                     continue
